@@ -585,7 +585,22 @@ def call_alternatives(prog, e, val, want="bool"):
         walk(0, [], [])
         if count[0] >= 10 ** 6:
             return None
-        return alts
+        # facts of the callee that are stated through its own bool variables / nested helpers are
+        # expanded in the callee first; what still mentions a local of the callee is dropped
+        out = []
+        for fs in alts:
+            known = list(fs)
+            work = list(fs)
+            for _ in range(3):
+                new_f = gs._expand_facts(work, known)
+                new_f = [(project(_subst(c_, mapping)), v_) for c_, v_ in new_f]
+                new_f = [f_ for f_ in new_f if f_ not in known]
+                if not new_f:
+                    break
+                known += new_f
+                work = new_f
+            out.append({f_ for f_ in known if not unstable_locals(f_[0])})
+        return out
     finally:
         _ALT_BUSY.discard(g.id)
 
